@@ -527,6 +527,13 @@ def viol_context(path, c, ln, vrid=None, prop=None):
             if y not in rel:
                 rel.add(y)
                 todo.append(y)
+    # a pending-request context recorded for a resource connected to the violation's resource by references covers it
+    # too (the client holds the children of a resource it was wrongly left with)
+    if vr is not None:
+        for cx in list(ctx):
+            for pref in ("unsub-while-pending:", "revoked-while-pending:", "error-placeholder:"):
+                if cx.startswith(pref) and cx[len(pref):] in rel and cx[len(pref):] != vr:
+                    ctx.append(pref + vr)
     sites = set()
     for l in lines[:ln]:
         if l.startswith("SITE\t"):
